@@ -452,7 +452,10 @@ func l3FnCases(c *Ctx) {
 			}
 		}
 		// one past the last set bit: the code's behaviour (panic or not) is an observable
-		s, _ := protect(func() string { x, y := bitmap.Select32R64(ws, sidx, sr, int32(ones)); return fmt.Sprintf("%d %d", x, y) })
+		s, _ := protect(func() string {
+			x, y := bitmap.Select32R64(ws, sidx, sr, int32(ones))
+			return fmt.Sprintf("%d %d", x, y)
+		})
 		fmt.Fprintf(iw, "select %d : %s\n", ones, s)
 		// Slice as positions
 		if total > 0 {
@@ -554,7 +557,7 @@ func l3FnCases(c *Ctx) {
 	for k := 0; k < nb; k++ {
 		id := fmt.Sprintf("fb%d", k)
 		s := randBytes(r, 1+r.Intn(12))
-		fromN := r.Intn(2 * len(s))         // nibble index
+		fromN := r.Intn(2 * len(s))               // nibble index
 		toN := fromN + 1 + r.Intn(2*len(s)-fromN) // > fromN, <= 2*len
 		from, to := int32(4*fromN), int32(4*toN)
 		// the nibbles of s from the byte boundary at or below from, up to to
